@@ -1,58 +1,227 @@
 import HH.Portable
+import HH.Sse
+import HH.Avx
 import HH.Spec
+import HH.Dispatch
 /-!
 # HH.Machine — handles ↦ hashers, the operations of the public API, `step` and `run`
 
-This is the executable model the correspondence check runs against the real crate, and the object
-the history-level theorems (C05, C06, C12, C13, C15) are about.
+This is the executable model the correspondence check runs against the real crate (through
+`Driver.lean`), and the object the history-level theorems (C05, C06, C12, C13, C15) are about.
 -/
 namespace HH
 
-inductive Backend | portable | sse | avx | neon | wasm
-deriving DecidableEq, Repr, Inhabited
-
-/-- what the caller asks for: a concrete back end or `HighwayHasher` (auto-selected) -/
+/-- what the caller asks for: a concrete back end type or `HighwayHasher` (auto-selected) -/
 inductive Sel | only (b : Backend) | auto
 deriving DecidableEq, Repr, Inhabited
 
 inductive Width | w64 | w128 | w256
 deriving DecidableEq, Repr, Inhabited
 
-/-- a live hasher of some back end -/
+/-- a live hasher of some back end (`PortableHash`, `SseHash`, `AvxHash`, …) -/
 inductive Hasher
   | portable (s : P.State)
+  | sse (s : Sse.State)
+  | avx (s : Avx.State)
+deriving DecidableEq, Repr
+
+inductive Digest
+  | d64 (x : BitVec 64)
+  | d128 (x : BitVec 64 × BitVec 64)
+  | d256 (x : BitVec 64 × BitVec 64 × BitVec 64 × BitVec 64)
 deriving DecidableEq, Repr
 
 namespace Hasher
 def backend : Hasher → Backend
   | portable _ => .portable
+  | sse _ => .sse
+  | avx _ => .avx
 
 def append : Hasher → List (BitVec 8) → Hasher
   | portable s, d => portable (P.append s d)
+  | sse s, d => sse (Sse.append s d)
+  | avx s, d => avx (Avx.append s d)
 
 def finalize64 : Hasher → BitVec 64
   | portable s => P.finalize64 s
+  | sse s => Sse.finalize64 s
+  | avx s => Avx.finalize64 s
 
 def finalize128 : Hasher → BitVec 64 × BitVec 64
   | portable s => P.finalize128 s
+  | sse s => Sse.finalize128 s
+  | avx s => Avx.finalize128 s
 
 def finalize256 : Hasher → BitVec 64 × BitVec 64 × BitVec 64 × BitVec 64
   | portable s => P.finalize256 s
+  | sse s => Sse.finalize256 s
+  | avx s => Avx.finalize256 s
+
+def finalize (h : Hasher) : Width → Digest
+  | .w64 => .d64 h.finalize64
+  | .w128 => .d128 h.finalize128
+  | .w256 => .d256 h.finalize256
 
 def checkpoint : Hasher → List (BitVec 8)
   | portable s => P.checkpoint s
+  | sse s => Sse.checkpoint s
+  | avx s => Avx.checkpoint s
 
+/-- the constructor of back end `b` from a key (availability is decided by the caller) -/
 def new : Backend → V4 → Option Hasher
   | .portable, k => some (portable (P.new k))
+  | .sse, k => some (sse (Sse.new k))
+  | .avx, k => some (avx (Avx.new k))
   | _, _ => none
 
 def default : Backend → Option Hasher
   | .portable => some (portable P.default)
+  | .sse => some (sse Sse.default)
+  | .avx => some (avx Avx.default)
   | _ => none
 
 def fromCheckpoint : Backend → List (BitVec 8) → Option Hasher
   | .portable, c => some (portable (P.fromCheckpoint c))
+  | .sse, c => some (sse (Sse.fromCheckpoint c))
+  | .avx, c => some (avx (Avx.fromCheckpoint c))
   | _, _ => none
 end Hasher
+
+/-- the configuration under test -/
+structure Env where
+  cfg : Cfg
+  cpu : Cpu
+deriving Repr, Inhabited
+
+/-- a handle of the harness: the hasher plus whether it is wrapped in a `HighwayHasher` -/
+structure Handle where
+  auto : Bool
+  h : Hasher
+deriving DecidableEq, Repr
+
+abbrev World := List (Nat × Handle)
+
+def World.get (w : World) (i : Nat) : Option Handle := (w.find? (·.1 == i)).map (·.2)
+def World.del (w : World) (i : Nat) : World := w.filter (·.1 != i)
+def World.put (w : World) (i : Nat) (x : Handle) : World := (i, x) :: w.del i
+
+inductive Op
+  | reset
+  | new (h : Nat) (sel : Sel) (force : Bool) (key : V4)
+  | default (h : Nat) (sel : Sel)
+  | restore (h : Nat) (sel : Sel) (force : Bool) (c : List (BitVec 8))
+  | restoreH (h : Nat) (sel : Sel) (force : Bool) (src : Nat)
+  | append (h : Nat) (d : List (BitVec 8))      -- `append`, `Hasher::write`, `write_all`
+  | ioWrite (h : Nat) (d : List (BitVec 8))     -- `io::Write::write`, `io::copy`
+  | clone (src dst : Nat)
+  | fin (h : Nat) (w : Width)                   -- consuming `finalizeN`
+  | ckpt (h : Nat)
+  | finish (h : Nat)                            -- `Hasher::finish(&self)`
+  | flush (h : Nat)
+  | drop (h : Nat)
+  | debug (h : Nat)
+  | hash (sel : Sel) (force : Bool) (w : Width) (key : V4) (d : List (BitVec 8))
+deriving Repr
+
+inductive Out
+  | ok | none | nohandle
+  | n (k : Nat)
+  | bytes (b : List (BitVec 8))
+  | digest (d : Digest)
+  | tag (auto : Bool) (t : Nat)
+deriving DecidableEq, Repr
+
+/-- which back end type a request resolves to, and whether the constructor yields a hasher:
+`HighwayHasher` follows the ladders; the safe `SseHash::new`/`AvxHash::new` need std + detection;
+the `force_*` constructors and `Default` are only exercised by the harness when the CPU has the
+feature. -/
+def resolve (env : Env) (sel : Sel) (force : Bool) (restore : Bool) : Option Backend :=
+  match sel with
+  | .auto => some (if restore then selectRestore env.cfg env.cpu else selectNew env.cfg env.cpu)
+  | .only .portable => some .portable
+  | .only .sse =>
+    if env.cfg.arch = .x86_64 ∧ (if force then env.cpu.sse41 else sseCtorSome env.cfg env.cpu) then some .sse else none
+  | .only .avx =>
+    if env.cfg.arch = .x86_64 ∧ (if force then env.cpu.avx2 else avxCtorSome env.cfg env.cpu) then some .avx else none
+  | .only .neon => if env.cfg.arch = .aarch64 then some .neon else none
+  | .only .wasm => if env.cfg.arch = .wasmSimd then some .wasm else none
+
+def mkHandle (sel : Sel) (h : Hasher) : Handle := ⟨sel == .auto, h⟩
+
+def construct (env : Env) (sel : Sel) (force restore : Bool) (mk : Backend → Option Hasher) : Option Handle :=
+  match resolve env sel force restore with
+  | some b => (mk b).map (mkHandle sel)
+  | none => none
+
+/-- one API call -/
+def step (env : Env) (w : World) : Op → World × Out
+  | .reset => ([], .ok)
+  | .new h sel force key =>
+    match construct env sel force false (Hasher.new · key) with
+    | some x => (w.put h x, .ok)
+    | none => (w.del h, .none)
+  | .default h sel =>
+    match construct env sel true false Hasher.default with
+    | some x => (w.put h x, .ok)
+    | none => (w.del h, .none)
+  | .restore h sel force c =>
+    match construct env sel force true (Hasher.fromCheckpoint · c) with
+    | some x => (w.put h x, .ok)
+    | none => (w.del h, .none)
+  | .restoreH h sel force src =>
+    match w.get src with
+    | none => (w, .nohandle)
+    | some s =>
+      match construct env sel force true (Hasher.fromCheckpoint · s.h.checkpoint) with
+      | some x => (w.put h x, .ok)
+      | none => (w.del h, .none)
+  | .append h d =>
+    match w.get h with
+    | none => (w, .nohandle)
+    | some x => (w.put h { x with h := x.h.append d }, .ok)
+  | .ioWrite h d =>
+    match w.get h with
+    | none => (w, .nohandle)
+    | some x => (w.put h { x with h := x.h.append d }, .n d.length)
+  | .clone src dst =>
+    match w.get src with
+    | none => (w, .nohandle)
+    | some x => (w.put dst x, .ok)
+  | .fin h wd =>
+    match w.get h with
+    | none => (w, .nohandle)
+    | some x => (w.del h, .digest (x.h.finalize wd))
+  | .ckpt h =>
+    match w.get h with
+    | none => (w, .nohandle)
+    | some x => (w, .bytes x.h.checkpoint)
+  | .finish h =>
+    match w.get h with
+    | none => (w, .nohandle)
+    | some x => (w, .digest (.d64 x.h.finalize64))
+  | .flush h =>
+    match w.get h with
+    | none => (w, .nohandle)
+    | some _ => (w, .ok)
+  | .drop h =>
+    match w.get h with
+    | none => (w, .nohandle)
+    | some _ => (w.del h, .ok)
+  | .debug h =>
+    match w.get h with
+    | none => (w, .nohandle)
+    | some x => (w, .tag x.auto x.h.backend.tag)
+  | .hash sel force wd key d =>
+    match construct env sel force false (Hasher.new · key) with
+    | some x => (w, .digest ((x.h.append d).finalize wd))
+    | none => (w, .none)
+
+/-- a history of API calls: final world and the outputs in order -/
+def run (env : Env) : World → List Op → World × List Out
+  | w, [] => (w, [])
+  | w, op :: ops =>
+    let (w', o) := step env w op
+    let (w'', os) := run env w' ops
+    (w'', o :: os)
 
 end HH
